@@ -98,11 +98,11 @@ def gen_holdings(rng, P, NG, graph):
     return hold
 
 
-def mk_set(rng, hold, pubmode):
+def mk_set(rng, hold, pubmode, allow_empty=False):
     gs = list(hold)
     n = len(gs)
     cap = n + rng.choice([0, 0, 1, 2])
-    if cap == 0:
+    if cap == 0 and not allow_empty:
         cap = 1
     ls = list(range(cap))
     if rng.random() < 0.7:
@@ -117,7 +117,7 @@ def mk_set(rng, hold, pubmode):
 
 
 def gen_one(rng, P, n, fixed_pair=None, rebuild_ok=True):
-    NG = rng.choice([1, 2, 4, 6, 8, 8, 12, 12, 16])
+    NG = rng.choice([1, 2, 4, 6, 8, 8, 12, 12, 16, 16, 40 if P <= 3 else 24])
     two = 1 if rng.random() < 0.4 else 0
     graph = rng.choice(GRAPHS)
     pubmode = rng.choice(["all", "all", "random", "none"])
@@ -127,6 +127,9 @@ def gen_one(rng, P, n, fixed_pair=None, rebuild_ok=True):
     if rng.random() < 0.35: c["pol"] += 2               # additionally DatatypeCommunicator forward/backward
     if rng.random() < 0.3: c["pol"] += 4                # additionally forward with Dune::CopyGatherScatter (SizeOne modes)
     if not two and rng.random() < 0.3: c["pol"] += 8    # one index set, separate source and target containers
+    elif not two and rng.random() < 0.3: c["pol"] += 16  # one index set, one container passed as source AND as target
+    if rng.random() < 0.4: c["pol"] += 32                # communicator with the reversed rank order of MPI_COMM_WORLD
+    if rng.random() < 0.25: c["pol"] += 64               # copies of Interface and BufferedCommunicator do the work
     z = rng.random()
     if z < 0.08: c["mode"] += 8                       # build(), free(), build()
     elif z < 0.20 and rebuild_ok: c["mode"] += 4      # build(), build()  (only while the tree survives the F-C05-1 witnesses)
@@ -140,14 +143,16 @@ def gen_one(rng, P, n, fixed_pair=None, rebuild_ok=True):
     c["sz"] = [rng.choice([0, 1, 2, 3]) if zs < 0.7 else rng.choice([0, 0, 0, 1]) if zs < 0.85 else rng.choice([1, 2, 3]) for _ in range(NG)]
     hs = gen_holdings(rng, P, NG, graph)
     ht = gen_holdings(rng, P, NG, rng.choice(GRAPHS)) if two else hs
+    if two and rng.random() < 0.15:          # two index-set OBJECTS with identical content (every rank also talks to itself)
+        ht = hs
     if two and rng.random() < 0.3:           # redistribution: the target is the source decomposition shifted by one rank
         ht = [hs[(p + 1) % P] for p in range(P)]
     c["ranks"] = []
     for p in range(P):
-        S, capS = mk_set(rng, hs[p], pubmode)
+        S, capS = mk_set(rng, hs[p], pubmode, allow_empty=not (c["pol"] // 2) % 2)
         r = dict(S=S, capS=capS)
         if two:
-            r["T"], r["capT"] = mk_set(rng, ht[p], pubmode)
+            r["T"], r["capT"] = mk_set(rng, ht[p], pubmode, allow_empty=not (c["pol"] // 2) % 2)
         c["ranks"].append(r)
     c["_graph"] = graph; c["_pub"] = pubmode
     return c
@@ -162,7 +167,7 @@ def corpus_cases():
 
 # --------------------------------------------------------------------------- observations
 
-FIELD = re.compile(r"(RI|IF|SE|SD|EQ|ST|DT|P\d)\[([^\]]*)\]")
+FIELD = re.compile(r"(RI|IF|SE|SD|EQ|ST|CP|DT|P\d)\[([^\]]*)\]")
 
 
 def parse_obs(line):
@@ -262,6 +267,8 @@ def oracle(case, impl_line, spec_line):
         if a.get("EQ") != s.get("EQ"):
             add_side("ifaceeq", "rank %d: Interface ==/!=/<</free+build observations [%s] (same flags / exchanged flags / != negates / printing / "
                                "rebuilt after free), equality of the interface maps gives [%s]" % (p, a.get("EQ"), s.get("EQ")))
+        if a.get("CP") != s.get("CP"):
+            add_side("copies", "rank %d: copy-constructed / copy-assigned Interface differs from the original (CP[%s])" % (p, a.get("CP")))
         if a.get("ST") != s.get("ST"):
             add_side("selftest", "rank %d: self tests (enumset combine()/operator<< , InterfaceInformation members, RemoteIndicesStateError on "
                                 "unsynced remote indices) = [%s], expected [%s]" % (p, a.get("ST"), s.get("ST")))
@@ -272,12 +279,13 @@ def oracle(case, impl_line, spec_line):
                     r = cmp_data(y[fld], x.get(fld, "?"), calls(y["S"]))
                     if r:
                         return side + [("datatype:" + ("fwd" if ph == "P3" else "bwd"), "rank %d phase %s (DatatypeCommunicator) container %s: %s" % (p, ph, fld, r))]
-        if "P5" in s:                                    # forward with Dune::CopyGatherScatter (no log): containers only
-            x, y = a.get("P5", {}), s["P5"]
-            for fld in ("D", "T"):
-                r = cmp_data(y[fld], x.get(fld, "?"), calls(y["S"]))
-                if r:
-                    return side + [("copygatherscatter:fwd", "rank %d phase P5 (CopyGatherScatter) container %s: %s" % (p, fld, r))]
+        for ph5 in ("P5", "P6"):                         # forward / backward with Dune::CopyGatherScatter (no log): containers only
+            if ph5 in s:
+                x, y = a.get(ph5, {}), s[ph5]
+                for fld in ("D", "T"):
+                    r = cmp_data(y[fld], x.get(fld, "?"), calls(y["S"]))
+                    if r:
+                        return side + [("copygatherscatter:" + ("fwd" if ph5 == "P5" else "bwd"), "rank %d phase %s (CopyGatherScatter, second communicator on the same Interface) container %s: %s" % (p, ph5, fld, r))]
         for ph in ("P0", "P1", "P2"):
             x, y = a.get(ph, {}), s[ph]
             d = "fwd" if ph != "P1" else "bwd"
@@ -301,8 +309,8 @@ def diff_model(impl_line, model_line, spec_line, case=None):
         return ("public", "shape")
     deep = None
     for p, (a, m, s) in enumerate(zip(io, mo, so)):
-        for k in ("IF", "SE", "SD", "EQ", "ST"):
-            if k in ("SD", "EQ", "ST") and a.get(k) != s.get(k):
+        for k in ("IF", "SE", "SD", "EQ", "ST", "CP"):
+            if k in ("SD", "EQ", "ST", "CP") and a.get(k) != s.get(k):
                 continue                                  # already rejected by the oracle
             if a.get(k) != m.get(k):
                 return ("public", "rank %d %s: impl [%s] model [%s]" % (p, k, a.get(k), m.get(k)))
@@ -359,6 +367,12 @@ def features(c, spec_line):
     if (c["pol"] // 2) % 2: f.add("datatype-communicator")
     if (c["pol"] // 4) % 2 and c["mode"] % 4 != 1: f.add("CopyGatherScatter")
     if (c["pol"] // 8) % 2: f.add("one-set-separate-containers")
+    if (c["pol"] // 16) % 2: f.add("aliased-arguments forward(d,d)")
+    if (c["pol"] // 32) % 2: f.add("reversed-rank-communicator")
+    if (c["pol"] // 64) % 2: f.add("copied Interface+BufferedCommunicator")
+    if c["two"] and all(sorted((e[0], e[2]) for e in r["S"]) == sorted((e[0], e[2]) for e in r["T"]) for r in c["ranks"]): f.add("two-sets-identical-content")
+    if c["NG"] >= 24: f.add("large(NG>=24)")
+    if any(r["capS"] == 0 or r.get("capT", 1) == 0 for r in c["ranks"]): f.add("empty-container")
     if c["mode"] % 4 == 3: f.add("16-byte-elements")
     if (c["pol"] // 2) % 2 and not c["two"] and not (c["pol"] // 8) % 2:
         for s_ in so:
@@ -394,7 +408,9 @@ def features(c, spec_line):
 def run_impl(ctx, exe, P, cases, tag, case_timeout):
     env = {"C05_CASE_TIMEOUT": str(case_timeout), "OMPI_MCA_rmaps_base_oversubscribe": "1"}
     cmd = ["mpirun", "--allow-run-as-root", "--oversubscribe", "-np", str(P), exe]
-    res = V.run_cases(ctx, cmd, cases, tag=tag, timeout=max(180, len(cases) // 3 + 4 * case_timeout), max_restarts=6, env=env)
+    # hangs are detected per case by the alarm inside the harness (C05_CASE_TIMEOUT); the budget of the whole launch is generous,
+    # because an expired launch budget makes V.run_cases treat every later chunk as hung (false verdicts on an overloaded machine)
+    res = V.run_cases(ctx, cmd, cases, tag=tag, timeout=max(900, 3 * len(cases) + 10 * case_timeout), max_restarts=6, env=env)
     shim = [0, 0, 0]
     for ef in glob.glob(ctx.path("%s.cases.*.err" % tag)):
         m = re.search(r"C05-SHIM sweeps=(\d+) reordered=(\d+) delays=(\d+)", open(ef, errors="replace").read())
@@ -567,7 +583,7 @@ def run(ctx):
         for f in features(c, spec): feats[f] = feats.get(f, 0) + 1
         if re.search(r"S:\d", spec): nontrivial.add(line)
         rs = oracle(c, a, spec)
-        SIDE = ("selection-default", "ifaceeq", "selftest")
+        SIDE = ("selection-default", "ifaceeq", "selftest", "copies")
         for r in rs:
             nviol += 1
             per_what[r[0]] = per_what.get(r[0], 0) + 1
